@@ -693,14 +693,34 @@ func c08CommentSearchStart(w *World, r *Report, rule string) {
 		for _, b := range f.Blocks {
 			for _, in := range b.Instrs {
 				c, ok := in.(*ssa.Call)
-				if !ok || c.Call.StaticCallee() == nil || (c.Call.StaticCallee().String() != "strings.Index" && c.Call.StaticCallee().String() != "strings.Cut") {
+				if !ok || c.Call.StaticCallee() == nil {
 					continue
 				}
-				k, ok := c.Call.Args[1].(*ssa.Const)
-				if !ok || k.Value == nil || k.Value.Kind() != constant.String {
+				closer := ""
+				switch c.Call.StaticCallee().String() {
+				case "strings.Index", "strings.Cut", "strings.Contains", "strings.SplitN", "strings.IndexAny":
+					k, ok := c.Call.Args[1].(*ssa.Const)
+					if !ok || k.Value == nil || k.Value.Kind() != constant.String {
+						continue
+					}
+					closer = constant.StringVal(k.Value)
+				case "strings.IndexByte", "strings.IndexRune", "strings.ContainsRune":
+					// a one-character terminator
+					k, ok := c.Call.Args[1].(*ssa.Const)
+					if !ok || k.Value == nil {
+						continue
+					}
+					ch, isInt := intConst(k.Value)
+					if !isInt {
+						continue
+					}
+					closer = string(rune(ch))
+				default:
 					continue
 				}
-				closer := constant.StringVal(k.Value)
+				if closer == "" {
+					continue
+				}
 				n++
 				what := fmt.Sprintf("%s: search for %q after opener %q", f.Name(), closer, opener)
 				overlap := 0
